@@ -7429,7 +7429,9 @@ def expr_value(expr: Union[Symbol, Choice, Tuple]) -> int:
     else:
         # Otherwise, try to compare them as numbers
         try:
-            comp = _sym_to_num(v1) - _sym_to_num(v2)
+            # (compared, not subtracted: an int beyond the range of float cannot be subtracted from a float)
+            n1, n2 = _sym_to_num(v1), _sym_to_num(v2)
+            comp = (n1 > n2) - (n1 < n2)
         except ValueError:
             # Fall back on a lexicographic comparison if the operands don't
             # parse as numbers
